@@ -506,10 +506,10 @@ static std::string run_keep(const std::string &line) {
   return r;
 }
 
-struct Range { unsigned long addr, size; };
-__attribute__((no_sanitize("address"))) static unsigned long long fnv_ranges(const std::vector<Range> &rs) {
+struct Range { unsigned long addr, size; int table; };
+__attribute__((no_sanitize("address"))) static unsigned long long fnv_ranges(const std::vector<Range> &rs, int only_tables = 0) {
   unsigned long long h = 1469598103934665603ULL;
-  for (auto &r : rs) { const unsigned char *p = (const unsigned char *) r.addr; for (unsigned long i = 0; i < r.size; i++) { h ^= p[i]; h *= 1099511628211ULL; } }
+  for (auto &r : rs) { if (only_tables && !r.table) continue; const unsigned char *p = (const unsigned char *) r.addr; for (unsigned long i = 0; i < r.size; i++) { h ^= p[i]; h *= 1099511628211ULL; } }
   return h;
 }
 
@@ -630,7 +630,7 @@ int main(int argc, char **argv) {
   } else if (mode == "history") {
     // argv[4] = file with "addr size" lines (hex): data/bss/rodata ranges contributed by libxrl.a (from the link map)
     std::vector<Range> ranges;
-    if (argc > 4) { for (auto &l : read_lines(argv[4])) { Range r; if (sscanf(l.c_str(), "%lx %lx", &r.addr, &r.size) == 2) ranges.push_back(r); } }
+    if (argc > 4) { for (auto &l : read_lines(argv[4])) { Range r; r.table = 0; if (sscanf(l.c_str(), "%lx %lx %d", &r.addr, &r.size, &r.table) >= 2) ranges.push_back(r); } }
     if (!setlocale(LC_ALL, harness_locale())) setlocale(LC_ALL, "C.utf8");
     std::string loc0 = std::string(setlocale(LC_ALL, NULL)) + "|" + setlocale(LC_NUMERIC, NULL);
     char cwd0[4096]; if (!getcwd(cwd0, sizeof cwd0)) cwd0[0] = 0;
@@ -640,6 +640,7 @@ int main(int argc, char **argv) {
     char *tok1 = strtok(walk, ";");
     srand(12345u); int r_expect; { unsigned s = 12345u; (void) s; r_expect = 0; }
     unsigned long long ck0 = fnv_ranges(ranges) ^ fnv_tls();
+    unsigned long long ckt0 = fnv_ranges(ranges, 1);
     int fe_round0 = fegetround(), fe_exc0 = fegetexcept();      // floating-point environment of the caller: rounding mode, trapping mask
     mode_t um0 = umask(0); umask(um0);
     int so_saved = dup(1); int so_fd = memfd_create("xrlcall-stdout", 0); fflush(stdout); dup2(so_fd, 1);
@@ -671,6 +672,7 @@ int main(int argc, char **argv) {
     int env_ok = (fegetround() == fe_round0 && fegetexcept() == fe_exc0 && um0 == um1 && libc_ok) ? 1 : 0;
     fprintf(out, "STATE\t%llx\t%llx\t%d\t%d\t%d\t%s\t%s\t%zu\t%zu\t%d\n", ck0, ck1, loc0 == loc1 ? 1 : 0, strcmp(cwd0, cwd1) == 0 ? 1 : 0, errs_ok ? 1 : 0,
             serr.empty() ? "-" : hexenc(serr.c_str(), serr.size()).c_str(), sout.empty() ? "-" : hexenc(sout.c_str(), sout.size()).c_str(), kept_errors.size(), ranges.size(), env_ok);
+    fseek(out, -1, SEEK_CUR); fprintf(out, "\t%d\n", fnv_ranges(ranges, 1) == ckt0 ? 1 : 0);      // 12th field: the shipped tables themselves are unchanged
   } else if (mode == "fresh") {
     if (!setlocale(LC_ALL, harness_locale())) setlocale(LC_ALL, "C.utf8");
     // every call in a child forked from a parent that has never called the library
